@@ -771,17 +771,23 @@ func (q *Queue) storeNewMessage(meta *QueueMetadata, header textproto.Header, bo
 		return nil, err
 	}
 
-	if err := q.updateMetadataOnDisk(meta); err != nil {
+	// The meta-data file is what makes the message visible to readDiskQueue,
+	// header and body should be durable before it appears.
+	if err := headerFile.Sync(); err != nil {
 		q.tryRemoveDanglingFile(id + ".body")
 		q.tryRemoveDanglingFile(id + ".header")
 		return nil, err
 	}
 
-	if err := headerFile.Sync(); err != nil {
+	if err := bodyFile.Sync(); err != nil {
+		q.tryRemoveDanglingFile(id + ".body")
+		q.tryRemoveDanglingFile(id + ".header")
 		return nil, err
 	}
 
-	if err := bodyFile.Sync(); err != nil {
+	if err := q.updateMetadataOnDisk(meta); err != nil {
+		q.tryRemoveDanglingFile(id + ".body")
+		q.tryRemoveDanglingFile(id + ".header")
 		return nil, err
 	}
 
